@@ -96,7 +96,8 @@ func deletable(md protoreflect.MessageDescriptor, out map[string][]int32, seen m
 	fs := md.Fields()
 	for i := 0; i < fs.Len(); i++ {
 		fd := fs.Get(i)
-		if od := fd.ContainingOneof(); od != nil && od.Fields().Len() == 1 {
+		// a oneof must keep at least one member: its first member is never deleted
+		if od := fd.ContainingOneof(); od != nil && od.Fields().Get(0) == fd {
 			continue
 		}
 		if !md.IsMapEntry() {
